@@ -283,6 +283,57 @@ Ok(ctx, s, out) ==
     [] OTHER ->
          LET d == Decode(ctx, out) IN ~IsFail(d) /\ Match(Kind(ctx), d, s \o TailOf(ctx))
 
+(* ---------- several rendering steps in ONE URL attribute ---------- *)
+\* A URL program is the content of one double-quoted URL attribute (href="...") of a template: a
+\* sequence of segments  [k |-> "t", b |-> literal template text (HTML source bytes)]  and
+\* [k |-> "v", b |-> the string shown there by {{ x }}].  The statement quantifies over strings
+\* "shown in a URL query value"; segment j is such a QUERY VALUE SLOT when
+\*   - it is a value directly preceded by literal text, and
+\*   - the URL text to its left (literal text with its character references decoded, the values to
+\*     its left as they are) has a '?', has no '#' (not in the fragment), and ends with
+\*     sep K '='  with sep one of '?' '&' and K a letter: the slot is the value of the parameter K.
+\* (A value elsewhere - path position, a piece of URL that itself brings "?a=b" - is not in the
+\* statement's list and is not judged here; see url_path_* above.)  To find the slot in the rendered
+\* URL without assuming anything about what the renderer does to the text around it (scriggo, for
+\* instance, turns the '?' of a literal "?q=" into '&' when a value to its left already brought a
+\* query), the slot is located by its parameter name: it is judged when "sep K =" occurs exactly
+\* once in the whole symbolic URL (otherwise the reference is undefined for it: skipped, counted).
+TSeg(b) == [k |-> "t", b |-> b]
+VSeg(b) == [k |-> "v", b |-> b]
+RECURSIVE SymFrom(_, _, _)
+SymFrom(segs, i, j) ==                                  \* symbolic URL text of segments i..j-1
+  IF i >= j THEN <<>>
+  ELSE (IF segs[i].k = "t" THEN DecHTML(segs[i].b, 1, TRUE, {34}) ELSE segs[i].b) \o SymFrom(segs, i + 1, j)
+Sym(segs) == SymFrom(segs, 1, Len(segs) + 1)
+KeyPlaces(t, K) == {p \in 1..(Len(t) - 2) : t[p] \in {63, 38} /\ t[p + 1] = K /\ t[p + 2] = 61}
+IsSlotLeft(L) == /\ Len(L) >= 3 /\ L[Len(L)] = 61 /\ IsAlpha(L[Len(L) - 1]) /\ L[Len(L) - 2] \in {63, 38}
+                 /\ \E k \in 1..(Len(L) - 2) : L[k] = 63
+                 /\ \A k \in 1..Len(L) : L[k] # 35
+IsSlot(segs, j) == /\ segs[j].k = "v" /\ j > 1 /\ segs[j - 1].k = "t"
+                   /\ ~IsFail(SymFrom(segs, 1, j)) /\ IsSlotLeft(SymFrom(segs, 1, j))
+SlotKey(segs, j) == LET L == SymFrom(segs, 1, j) IN L[Len(L) - 1]
+Judged(segs, j) == /\ IsSlot(segs, j)
+                   /\ ~IsFail(Sym(segs))
+                   /\ \A p, p2 \in KeyPlaces(Sym(segs), SlotKey(segs, j)) : p = p2
+JudgedSlots(segs) == {j \in 1..Len(segs) : Judged(segs, j)}
+\* the value of the (first) parameter K of the URL U is the text from after "sep K =" up to the next
+\* '&' (next parameter), '#' (fragment) or the end; percent-decoded (both readings of '+', as for
+\* url_query_dq) it must be the string shown in the slot
+RECURSIVE ExtEnd(_, _)
+ExtEnd(U, i) == IF i > Len(U) \/ U[i] \in {38, 35} THEN i ELSE ExtEnd(U, i + 1)
+SlotOk(U, K, s) ==
+  LET P == KeyPlaces(U, K) IN
+  /\ P # {}
+  /\ LET p == CHOOSE x \in P : \A y \in P : x <= y
+         ext == Sub(U, p + 3, ExtEnd(U, p + 3) - 1)
+     IN PctDec(ext, 1, FALSE) = s \/ PctDec(ext, 1, TRUE) = s
+\* OkProg(segs, out): out = the rendered attribute value (between the quotes)
+OkProg(segs, out) ==
+  LET U == DecHTML(out, 1, TRUE, {34}) IN
+  /\ ~IsFail(U)
+  /\ \A j \in JudgedSlots(segs) : SlotOk(U, SlotKey(segs, j), segs[j].b)
+
+
 (* ======================================================================================= *)
 (* (ii) IMPLEMENTATION-SHAPED MODEL of internal/runtime/escapers.go (+ dispatch of renderer.go) *)
 (*      i and last are 0-based as in the code; s[i] of the code is s[i + 1] here.           *)
@@ -419,4 +470,30 @@ Model(ctx, s, hi) ==
     [] ctx = "url_query_dq" -> QueryEscape(UrlPre(s))              \* r.query set by the text "/p?q="
     [] ctx = "url_path_dq"  -> PathEscape(UrlPre(s), TRUE)
     [] ctx = "url_path_unq" -> PathEscape(UrlPre(s), FALSE)
+\* ---- renderer.Text / renderer.showInURL: the steps of ONE URL attribute (not srcset: isSet = false).
+\*      st = [q |-> r.query, rq |-> r.removeQuestionMark, am |-> r.addAmpersand, w |-> bytes written]
+Amp == <<38, 97, 109, 112, 59>>                                             \* "&amp;"
+RStart == [q |-> FALSE, rq |-> FALSE, am |-> FALSE, w |-> <<>>]            \* endURL() before the attribute
+RText(st, txt) ==
+  IF st.q                                                                   \* else if r.query
+  THEN LET t1 == IF st.rq /\ txt[1] = 63 THEN Sub(txt, 2, Len(txt)) ELSE txt            \* txt = txt[1:]
+           w1 == IF st.am /\ Len(t1) > 0 /\ t1[1] # 38 THEN st.w \o Amp ELSE st.w
+       IN [q |-> TRUE, rq |-> FALSE, am |-> FALSE, w |-> w1 \o t1]
+  ELSE [st EXCEPT !.q = \E k \in 1..Len(txt) : txt[k] \in {63, 35}, !.w = st.w \o txt]   \* bytes.ContainsAny(txt, "?#")
+RShow(st, v, quoted) ==
+  LET s == UrlPre(v) IN
+  IF st.q
+  THEN IF st.rq
+       THEN IF s = <<>> THEN st
+            ELSE [st EXCEPT !.am = s[Len(s)] # 38, !.w = st.w \o PathEscape(s, quoted)]
+       ELSE [st EXCEPT !.w = st.w \o QueryEscape(s)]
+  ELSE IF \E k \in 1..Len(s) : s[k] = 63                                    \* strings.Contains(s, "?")
+       THEN [q |-> TRUE, rq |-> TRUE, am |-> IF s[Len(s)] \notin {38, 63} THEN TRUE ELSE st.am,
+             w |-> st.w \o PathEscape(s, quoted)]
+       ELSE [st EXCEPT !.w = st.w \o PathEscape(s, quoted)]
+RECURSIVE RSteps(_, _, _)
+RSteps(segs, i, st) ==
+  IF i > Len(segs) THEN st
+  ELSE RSteps(segs, i + 1, IF segs[i].k = "t" THEN RText(st, segs[i].b) ELSE RShow(st, segs[i].b, TRUE))
+ModelProg(segs) == RSteps(segs, 1, RStart).w
 =============================================================================
